@@ -178,6 +178,22 @@ CLAIMED = {
        "Known finding C17-F17c (labels truncated to 25 characters). F-17a and F-17b were found by this check and repaired (fix: 23dee97, a3588cc).",
   technique="Coq proof (lists/Permutation, no axioms) of a hand model with the assignment solver as a contract-checked oracle + differential correspondence + property oracles",
   design="§8 C17"),
+ "C19": dict(
+  text="Theorems over the reals about a hand model of PhylogenCluster._recalc (coq/model/PhyloBody.v) and over Z about Clusters.v: for gene columns and "
+       "genome vectors of ANY length, range normalisation puts every entry in [lo w, hi w] (w = weight/sqrt(len) >= 0), attains both ends for a non-constant "
+       "column, sends a constant column to lo, and the one-sided modes are rigid shifts hitting the requested bound (range_normalised); the combined "
+       "distance sqrt(sum (a_k-b_k)^2 + sum m_k^2) is symmetric, zero on the diagonal, non-negative and satisfies the triangle inequality (Cauchy-Schwarz "
+       "and Minkowski proved by induction over lists) whenever each pair-gene component does (distance_metric); for any label list the index groups "
+       "[where(labels == i)] are a partition that agrees with the labels (groups_agree); the reference components of the graph 'closer than t' (the "
+       "queue traversal shared with C04) are a partition, closed under near pairs, connected, and never left by a chain (single_linkage_components). Tied to "
+       "the code by correspondence (normalised columns, squared distances, groups, scipy single-linkage fcluster vs the reference) and by oracles on the real "
+       "API: metric axioms, ranges, partitions for 4 linkage methods and k-means, union-find components, permutation equivariance.",
+  note="scipy.cluster (linkage, fcluster, kmeans, vq) is not modelled: its output is compared with the proved reference on sampled inputs (partial for the "
+       "clause 'single-linkage clusters are exactly the components'). Permutation invariance is an oracle on the real API, not a theorem. Pair genes are "
+       "assumed to be pseudo-metrics (hypothesis tri_ok); the built-in hbonds_site_compare gene is not exercised. Two defects were found and repaired "
+       "(fix: 0414b44 import with SciPy >= 1.17, 3caf352 several pair-gene columns).",
+  technique="Coq proof (Reals: Cauchy-Schwarz/Minkowski by list induction; Z lists for groups and components) of a hand model + differential correspondence (vm_compute) + oracles",
+  design="§8 C19"),
  "C18": dict(
   text="Axiom-free theorems about a transition-system model of Submitter._main_loop/_catch_signal/_terminate/_save/_load (coq/model/Submitter.v: one step "
        "per effect point, ghost event trace) over EVERY reachable state, i.e. any interleaving of loop steps, termination requests (at any point, any "
